@@ -20,7 +20,7 @@ func VerifC07DiffOrder() {
 	var a, b *spec.Swagger
 	switch kind {
 	case 0: // spec-level aspects
-		aspect := vChoice("aspect", 10)
+		aspect := vChoice("aspect", 12)
 		a, b = vMetaSpec("a", aspect), vMetaSpec("b", aspect)
 	case 1: // two properties / definitions
 		t := vChoice("template", vNumTemplates)
